@@ -100,6 +100,62 @@ class FakeRawSocket:
         return len(b)
 
 
+class FakeTLSSocket(FakeRawSocket):
+    """An `ssl.SSLSocket` as seen by AssociationSocket: the peer's byte string arrives in TLS records (sizes =
+    `cuts`, then one record with the rest).  `recv(n)` hands out decrypted bytes of the current record (reading and
+    decrypting the next record from TCP when the buffer is empty); `pending()` is the number of decrypted bytes
+    still buffered; `select` on the descriptor only sees TCP: it reports readable iff a further record (or the
+    close) is waiting - NOT when the only unread bytes are already decrypted and buffered (Python docs, ssl:
+    "SSLSocket.pending() ... select() may report nothing to read although data is buffered")."""
+
+    def __init__(self, data, cuts=(), closed=True, timeout=None, size=None):
+        FakeRawSocket.__init__(self, data, (), closed=closed, timeout=timeout, size=size)
+        self.records = cuts
+        self.r = 0
+        self.buf_end = 0          # end offset of the decrypted record currently buffered
+
+    def pending(self):            # ssl.SSLSocket.pending()
+        return self.buf_end - self.pos
+
+    def tcp_readable(self):
+        return self.buf_end < self.size or self.closed
+
+    def recv(self, bufsize, flags=0):
+        self.recv_calls += 1
+        if self.was_closed:
+            raise OSError(9, "Bad file descriptor")
+        if self.pos >= self.buf_end:
+            if self.buf_end >= self.size:
+                if self.closed:
+                    return b""
+                if self._timeout is None:
+                    raise Hang("recv() on a TLS socket without timeout while the peer is silent")
+                raise TimeoutError("timed out")
+            n = self.size - self.buf_end
+            if self.r < len(self.records):
+                n = self.records[self.r]
+                self.r += 1
+                if n < 1:
+                    n = 1
+                if n > self.size - self.buf_end:
+                    n = self.size - self.buf_end
+            self.buf_end += n
+        k = self.buf_end - self.pos
+        if k > bufsize:
+            k = bufsize
+        out = self.data[self.pos:self.pos + k]
+        self.pos += k
+        return out
+
+
+class FakeSSLModule:
+    """`ssl` as referenced by pynetdicom.transport: isinstance(sock, ssl.SSLSocket) is true for FakeTLSSocket."""
+    SSLSocket = FakeTLSSocket
+
+    class SSLError(OSError):
+        pass
+
+
 class FakeSelect:
     """Stand-in for the `select` module inside pynetdicom.transport: a socket is readable iff
     bytes are pending or the peer has closed (then recv() returns b"" at once)."""
@@ -112,7 +168,10 @@ class FakeSelect:
         for s in rlist:
             if s.was_closed:
                 raise ValueError("file descriptor cannot be a negative integer (-1)")
-            if s.pending() > 0 or s.closed or s.reset_at is not None:
+            if isinstance(s, FakeTLSSocket):
+                if s.tcp_readable():
+                    ready.append(s)
+            elif s.pending() > 0 or s.closed or s.reset_at is not None:
                 ready.append(s)
         return ready, [], []
 
